@@ -17,6 +17,7 @@ import json
 import math
 import os
 import random as pyrandom
+import re
 import signal
 import sys
 import time
@@ -145,9 +146,13 @@ def feas_box(cfg):
     return np.asarray(lb).reshape(-1, 1), np.asarray(ub).reshape(-1, 1)
 
 
-def build_optimizer(name, hyperparams):
+def build_optimizer(name, hyperparams, hp_numpy=False):
     mod = importlib.import_module('opytimizer.optimizers.' + name.lower())
-    return getattr(mod, name)(hyperparams=dict(hyperparams or {}))
+    hp = dict(hyperparams or {})
+    if hp_numpy:
+        # the same values as NumPy scalars (np.linspace / np.arange sweeps are the usual source of hyperparameter values)
+        hp = {k: (np.float64(v) if isinstance(v, float) else v) for k, v in hp.items()}
+    return getattr(mod, name)(hyperparams=hp)
 
 
 def run_prelude(cfg, space):
@@ -160,7 +165,7 @@ def run_prelude(cfg, space):
             Opytimizer(space=space, optimizer=build_optimizer(pre['optimizer'], pre.get('hyperparams')), function=Function(pointer=raw)).start()
 
 
-def build(cfg, fwrap, space=None):
+def build(cfg, fwrap, space=None, opt=None):
     """Space, optimizer, function from scratch, the way /repo/examples do."""
     from opytimizer.core.function import Function
     from opytimizer.spaces.search import SearchSpace
@@ -180,7 +185,8 @@ def build(cfg, fwrap, space=None):
         space = TreeSpace(n_trees=cfg['n_agents'], n_terminals=t['n_terminals'], n_variables=cfg['n_variables'],
                           n_iterations=cfg['n_iterations'], min_depth=t['min_depth'], max_depth=t['max_depth'],
                           functions=list(t['functions']), lower_bound=list(lb), upper_bound=list(ub))
-    opt = build_optimizer(cfg['optimizer'], cfg.get('hyperparams'))
+    if opt is None:
+        opt = build_optimizer(cfg['optimizer'], cfg.get('hyperparams'), cfg.get('hp_numpy'))
     fn = Function(pointer=fwrap)
     return space, opt, fn
 
@@ -480,15 +486,15 @@ class Monitor:
         improved = self.minval is not None and self.minval < b0f
         want = self.minval if improved else b0f
         if bf != want:
-            self.v('C02', 'history:best-fit-not-min', 'continued space: best fitness %r differs from min(inherited best %r, smallest value returned in this task %r) at %s'
+            self.v('C02', 'best-fit-not-min', 'continued space: best fitness %r differs from min(inherited best %r, smallest value returned in this task %r) at %s'
                    % (bf, b0f, self.minval, when), bf, want)
             return
         if improved:
             if not any(eqarr(r['copy'], b.position) for r in self.minargs):
-                self.v('C02', 'history:best-position-not-an-argmin', 'continued space: best position is not an argument at which the objective returned the best fitness (%s)' % when,
+                self.v('C02', 'best-position-not-an-argmin', 'continued space: best position is not an argument at which the objective returned the best fitness (%s)' % when,
                        b.position, [r['copy'].tolist() for r in self.minargs[:3]])
         elif not eqarr(b0p, b.position):
-            self.v('C02', 'history:inherited-best-position-changed', 'continued space: nothing better than the inherited best was evaluated, but the best position changed (%s)' % when,
+            self.v('C02', 'inherited-best-position-changed', 'continued space: nothing better than the inherited best was evaluated, but the best position changed (%s)' % when,
                    b.position, b0p)
 
     def check_c02(self, space, when):
@@ -665,10 +671,26 @@ def execute(cfg, light=False, seed=None):
             mon.hist = None
             mon.state1 = mon.state0
             return mon
+    opt_pre = None
+    if cfg.get('reuse_optimizer'):
+        # a history on the OPTIMIZER object: it has already run a task on another, freshly built space (of another size)
+        try:
+            from opytimizer.core.function import Function as _F
+            opt_pre = build_optimizer(cfg['optimizer'], cfg.get('hyperparams'), cfg.get('hp_numpy'))
+            sp2 = build(dict(cfg, **cfg['reuse_optimizer']), mon.raw, opt=opt_pre)[0]
+            with np.errstate(all='ignore'):
+                Opytimizer(space=sp2, optimizer=opt_pre, function=_F(pointer=mon.raw)).start()
+        except (Exception, SoftTimeout) as ex:  # noqa: BLE001
+            mon.outcome = {'status': 'prelude-' + ('timeout' if isinstance(ex, SoftTimeout) else 'exception'), 'type': type(ex).__name__, 'msg': str(ex)[:200]}
+            mon.skip('history of tasks: the earlier task of the reused optimizer did not complete (%s)' % type(ex).__name__)
+            mon.draws = draws
+            mon.hist = None
+            mon.state1 = mon.state0
+            return mon
     with Patches(mon):
         draws.install()
         try:
-            space, opt, fn = build(cfg, mon.fwrap, pre_space)
+            space, opt, fn = build(cfg, mon.fwrap, pre_space, opt_pre)
             mon.space, mon.opt, mon.fn = space, opt, fn
             if cfg.get('prelude'):
                 try:
@@ -995,9 +1017,11 @@ def final_checks(mon):
     mon.check_population(sp, 'return')
     mon.check_best_feasible(sp, 'return')
     if mon.cfg.get('prelude'):
-        # C04/C20 and the plain C02 oracle speak about one task on a fresh space; C02 has a history form (inherited best)
+        # C04 and the plain C02 oracle speak about one task on a fresh space; C02 has a history form (inherited best);
+        # C20 (records truthful, greedy individuals never get worse) applies to every task of a history as it stands
         mon.check_c02(sp, 'return')
         check_c01_args(mon)
+        check_c20(mon)
         return
     mon.check_c02(sp, 'return')
     if mon.cfg['space'] == 'tree':
@@ -1108,10 +1132,17 @@ def run_task(cfg):
             check_c01_args(mon)
             viol = list(mon.viol)
     if cfg.get('prelude'):
-        # a key that names its cause site (`...@site`: NaN produced by the observed task's own arithmetic) identifies the same
-        # defect as in a single task; everything else is specific to the history and is keyed by it
-        tag = 'after-%s:' % '+'.join(p['optimizer'] for p in cfg['prelude'])
-        viol = [dict(v, key=v['key'] if '@' in v['key'] else tag + v['key']) for v in viol if v['property'] in ('C01', 'C02', 'C07', 'C12')]
+        # a key that names its own cause (`...@site`: NaN produced by the observed task's arithmetic; a position moved after its
+        # evaluation) identifies the same defect as in a single task; everything else is specific to the continued space and keyed
+        # `history:` (the earlier tasks are in the replayed configuration, not in the key; the swarm family shares its sweep)
+        def hkey(k):
+            if '@' in k or ':position-moved-after-its-evaluation' in k:
+                return k
+            return 'history:' + re.sub(r'^(PSO|AIWPSO|RPSO):', 'PSO-family:', k)
+        viol = [dict(v, key=hkey(v['key'])) for v in viol if v['property'] in ('C01', 'C02', 'C07', 'C12', 'C20')]
+    if cfg.get('reuse_optimizer'):
+        # the observed space is fresh: every single-task oracle applies and a violation keeps its single-task key
+        viol = [v for v in viol if v['property'] != 'C05']
     stats = {'status': mon.outcome['status'], 'n_evals': len(mon.evals), 'n_hooks': len(mon.hooks), 'n_dumps': len(mon.dumps),
              'n_uniform': getattr(mon, 'draws', None) and mon.draws.n_uniform, 'n_normal': getattr(mon, 'draws', None) and mon.draws.n_normal,
              'n_choice': getattr(mon, 'draws', None) and mon.draws.n_choice, 'clip_agent': mon.n_clip_agent, 'clip_space': mon.n_clip_space,
